@@ -18,7 +18,7 @@ namespace RegionsVerif.Impl.Crtf
 
 /-- behaviours of the current code that are candidate defects (`true` = present). -/
 structure Quirks where
-  /-- F6: `_to_shape_list` does `region.meta.pop('include', True)` on the caller's region. -/
+  /-- F6 (fixed, 90d029a): `_to_shape_list` did `region.meta.pop('include', True)` on the caller's region. -/
   popInclude : Bool
   /-- F7: a text region's string is taken from `meta['text']`/`meta['label']`, not `region.text`. -/
   textFromMeta : Bool
@@ -37,8 +37,9 @@ deriving DecidableEq, Repr
 
 /-- the tree as it is now. -/
 def Quirks.current : Quirks :=
-  { popInclude := true, textFromMeta := true, pointUnreadable := true, pixAsDeg := true,
-    dropLabelcolor := true, labeloffRepr := true, quotePairUnreadable := true }
+  { popInclude := false,        -- F6 fixed in /repo by 90d029a (`region.meta.get('include', True)`)
+    textFromMeta := false, pointUnreadable := false, pixAsDeg := false,
+    dropLabelcolor := true, labeloffRepr := false, quotePairUnreadable := false }
 
 /-- all candidate defects repaired as in `/verif/proposed_fixes/`. -/
 def Quirks.fixed : Quirks :=
